@@ -1,7 +1,9 @@
 package props
 
 import (
+	"context"
 	"encoding/json"
+	"errors"
 	"fmt"
 	"net/url"
 	"sort"
@@ -307,9 +309,16 @@ func runC15(r *R) {
 	}
 	target := "10.0.0.9:8080"
 	var tgt *httpTarget
+	// one run in six is cancelled by the caller at a drawn instant: an invocation in progress then still runs its
+	// remaining steps in order, with its pauses, and reports one sample per step; only the number of invocations is open
+	cancelAt := time.Duration(0)
+	if !longRing && w.Draw(6) == 0 {
+		cancelAt = time.Duration(1+w.Draw(1500)) * time.Millisecond
+	}
 	res := runHTTPPool(r, httpPoolSpec{
 		Ammo:      map[string]interface{}{"type": "http/scenario", "file": descFile, "limit": invocations},
 		Gun:       map[string]interface{}{"type": "http/scenario", "target": target},
+		CancelAt:  cancelAt,
 		Instances: inst, Tokens: invocations + 3,
 		Files: map[string][]byte{descFile: []byte(yaml), "/ammo/users.csv": []byte(csv)}, Horizon: 2 * time.Hour,
 	}, func(nw *simnet.Net) { nw.Latency = lat }, func(nw *simnet.Net) { tgt = startHTTPTarget(nw, target, false, script) })
@@ -328,7 +337,11 @@ func runC15(r *R) {
 		r.Fail("description-rejected", "the valid scenario description was rejected: %v\n%s", res.DecodeErr, yaml)
 		return
 	}
-	if res.RunErr != nil {
+	cancelled := res.CancelSeq > 0
+	if cancelled {
+		r.Note("cancelled-by-the-caller")
+	}
+	if res.RunErr != nil && !(cancelled && errors.Is(res.RunErr, context.Canceled)) {
 		r.Fail("run-error", "Engine.Run returned %v\n%s", res.RunErr, yaml)
 		return
 	}
@@ -543,6 +556,9 @@ func runC15(r *R) {
 	}
 	// weights: whole passes over the ring
 	for i, c := range counts {
+		if cancelled {
+			break // (whole rings are delivered only by a run that is not cut)
+		}
 		if c != perPass[i]*passes {
 			r.Fail("weights", "scenario %s was invoked %d times in %d passes over the ring, want %d (weights %v)", scs[i].Name, c, passes, perPass[i]*passes, weightsOf(scs))
 			return
